@@ -89,7 +89,9 @@ func ReadBodyWithStreaming(zr network.Reader, contentLength, maxBodySize int, ds
 	}
 	dst = dst[:0]
 
-	if maxBodySize <= 0 {
+	// no limit configured: maxBodySize only stands for the size of the prefetch from here on
+	noLimit := maxBodySize <= 0
+	if noLimit {
 		maxBodySize = maxContentLengthInStream
 	}
 	readN := maxBodySize
@@ -100,7 +102,10 @@ func ReadBodyWithStreaming(zr network.Reader, contentLength, maxBodySize int, ds
 		readN = maxContentLengthInStream
 	}
 
-	if contentLength >= 0 && maxBodySize >= contentLength {
+	if contentLength >= 0 && (noLimit || maxBodySize >= contentLength) {
+		// Without a limit a body of known length is never "too large": prefetch exactly readN (<= contentLength)
+		// bytes of it. readBodyIdentity takes whatever the connection has buffered, up to cap(dst) - the size of
+		// the largest body this buffer ever held - and runs past the end of the body into the next request.
 		b, err = appendBodyFixedSize(zr, dst, readN)
 	} else {
 		b, err = readBodyIdentity(zr, readN, dst)
